@@ -133,13 +133,36 @@ fn verify(e: &Engine, c: &TagCase, set: &BTreeSet<String>, step: &str, obs: &mut
 
 pub fn check_case(c: &TagCase, obs: &mut Obs) -> Result<(), String> {
     let ls = lines(c);
+    let tags: Vec<String> = c.rules.iter().map(|r| r.tag.clone()).collect();
+    run_history(&ls, &c.ops, c.optimize, &tags, obs, &mut |e, set, step, obs| verify(e, c, set, step, obs))?;
+    for r in &c.rules {
+        obs.label(match r.kind {
+            Kind::Block => "kind-block",
+            Kind::Exception => "kind-exception",
+            Kind::Important => "kind-important",
+            Kind::Csp => "kind-csp",
+        });
+    }
+    Ok(())
+}
+
+/// Applies the op history to an engine built from `ls`, calling `verify` initially and after every op
+/// with the model's enabled set.
+fn run_history(
+    ls: &[String],
+    ops: &[Op],
+    optimize: bool,
+    rule_tags: &[String],
+    obs: &mut Obs,
+    verify: &mut dyn FnMut(&Engine, &BTreeSet<String>, &str, &mut Obs) -> Result<(), String>,
+) -> Result<(), String> {
     let res = gen::std_resources();
-    let mut e = build_engine(&ls, false, c.optimize, &res);
+    let mut e = build_engine(ls, false, optimize, &res);
     let mut set: BTreeSet<String> = BTreeSet::new();
-    verify(&e, c, &set, "initial", obs)?;
+    verify(&e, &set, "initial", obs)?;
     let mut changes = 0;
     let mut flipped = false;
-    for (k, op) in c.ops.iter().enumerate() {
+    for (k, op) in ops.iter().enumerate() {
         let before = set.clone();
         match op {
             Op::Use(ts) => {
@@ -157,7 +180,7 @@ pub fn check_case(c: &TagCase, obs: &mut Obs) -> Result<(), String> {
                 }
             }
             Op::Reload(other) => {
-                let mut sib = build_engine(&ls, false, c.optimize, &res);
+                let mut sib = build_engine(ls, false, optimize, &res);
                 sib.use_tags(&other.iter().map(|s| s.as_str()).collect::<Vec<_>>());
                 let bytes = sib.serialize_raw().map_err(|e| format!("serialize failed: {:?}", e))?;
                 e.deserialize(&bytes).map_err(|e| format!("deserialize failed: {:?}", e))?;
@@ -167,24 +190,167 @@ pub fn check_case(c: &TagCase, obs: &mut Obs) -> Result<(), String> {
         }
         if before != set {
             changes += 1;
-            if c.rules.iter().any(|r| before.contains(&r.tag) != set.contains(&r.tag)) {
+            if rule_tags.iter().any(|t| before.contains(t) != set.contains(t)) {
                 flipped = true;
             }
         }
-        verify(&e, c, &set, &format!("after op #{} {:?}", k, op), obs)?;
+        verify(&e, &set, &format!("after op #{} {:?}", k, op), obs)?;
     }
     if changes >= 2 && flipped {
         obs.nontrivial = true;
     }
-    for r in &c.rules {
-        obs.label(match r.kind {
-            Kind::Block => "kind-block",
-            Kind::Exception => "kind-exception",
-            Kind::Important => "kind-important",
-            Kind::Csp => "kind-csp",
+    Ok(())
+}
+
+// ---- shared-bucket histories: tagged rules that share tokens, so that which rules sit in one
+// bucket (and get fused by the optimiser) depends on the enabled set -----------------------------
+
+const TOKS: &[&str] = &["promo", "banner", "track", "adv"];
+
+#[derive(Clone, Debug, Serialize, Deserialize)]
+pub struct Group {
+    pub kind: Kind,
+    pub tag: String,
+    pub size: usize,
+    pub toks: (u8, u8),
+    /// pattern contains `*` (compiled to a regex)
+    pub regexy: bool,
+}
+
+#[derive(Clone, Debug, Serialize, Deserialize)]
+pub struct SharedCase {
+    pub groups: Vec<Group>,
+    pub ops: Vec<Op>,
+    pub optimize: bool,
+}
+
+impl Case for SharedCase {
+    fn smaller(&self) -> Vec<Self> {
+        let mut v = vec![];
+        for i in 0..self.ops.len() {
+            let mut c = self.clone();
+            c.ops.remove(i);
+            v.push(c);
+        }
+        for i in 0..self.groups.len() {
+            let mut c = self.clone();
+            c.groups.remove(i);
+            v.push(c);
+            if self.groups[i].size > 1 {
+                for s in [1, self.groups[i].size / 2, self.groups[i].size - 1] {
+                    if s >= 1 && s < self.groups[i].size {
+                        let mut c = self.clone();
+                        c.groups[i].size = s;
+                        v.push(c);
+                    }
+                }
+            }
+        }
+        v
+    }
+}
+
+/// (kind, tag, rule line(s) index, probe url) per expanded rule
+fn shared_rules(c: &SharedCase) -> (Vec<String>, Vec<(Kind, String, String)>) {
+    let mut ls = vec![];
+    let mut probes = vec![];
+    let mut n = 0usize;
+    for g in &c.groups {
+        let (a, b) = (TOKS[g.toks.0 as usize % TOKS.len()], TOKS[g.toks.1 as usize % TOKS.len()]);
+        for _ in 0..g.size {
+            let letter = match g.kind {
+                Kind::Block => 'b',
+                Kind::Exception => 'e',
+                _ => 'i',
+            };
+            // the trailing `<letter>NNN` is never a token (it may be a prefix), so the rule is
+            // indexed under one of the two shared tokens
+            let id = format!("{}{:04}", letter, n);
+            let pat = if g.regexy { format!("/{}/{}/*{}", a, b, id) } else { format!("/{}/{}/{}", a, b, id) };
+            let url = if g.regexy { format!("https://h.example.com/{}/{}/zz/{}", a, b, id) } else { format!("https://h.example.com/{}/{}/{}", a, b, id) };
+            match g.kind {
+                Kind::Block => ls.push(format!("{}$tag={}", pat, g.tag)),
+                Kind::Exception => {
+                    ls.push(format!("/{}^", id)); // untagged blocker (own token) so the exception is observable
+                    ls.push(format!("@@{}$tag={}", pat, g.tag));
+                }
+                _ => {
+                    ls.push(format!("@@/{}^", id));
+                    ls.push(format!("{}$important,tag={}", pat, g.tag));
+                }
+            }
+            probes.push((g.kind.clone(), g.tag.clone(), url));
+            n += 1;
+        }
+    }
+    (ls, probes)
+}
+
+pub fn check_shared(c: &SharedCase, obs: &mut Obs) -> Result<(), String> {
+    let (ls, probes) = shared_rules(c);
+    let tags: Vec<String> = probes.iter().map(|p| p.1.clone()).collect();
+    if c.groups.iter().any(|g| g.size > 64) {
+        obs.label("group>64");
+    }
+    run_history(&ls, &c.ops, c.optimize, &tags, obs, &mut |e, set, step, obs| {
+        for (i, (kind, tag, url)) in probes.iter().enumerate() {
+            obs.inner_evals += 1;
+            let active = set.contains(tag);
+            let req = adblock::request::Request::new(url, "https://other.org/", "script").unwrap();
+            let b = e.check_network_request(&req);
+            let ok = match kind {
+                Kind::Block => b.matched == active,
+                Kind::Exception => b.matched == !active && b.exception.is_some() == active,
+                _ => b.matched == active && b.important == active,
+            };
+            if !ok {
+                return Err(format!(
+                    "{}: rule #{} {:?} (tag {:?}, enabled set {:?}) should be {} but probe {} gave matched={} important={} exception={:?} filter={:?}",
+                    step, i, kind, tag, set, if active { "active" } else { "inactive" }, url, b.matched, b.important, b.exception, b.filter
+                ));
+            }
+        }
+        Ok(())
+    })
+}
+
+pub fn decode_shared(t: &mut Tape) -> SharedCase {
+    let big = t.chance(1, 30);
+    let ngroups = if big { 2 + t.pick(2) } else { 2 + t.pick(6) };
+    // few distinct token pairs, so that groups meet in buckets
+    let ntok = 2 + t.pick(3);
+    let big_toks = (t.pick(ntok) as u8, t.pick(ntok) as u8);
+    let big_kind = match t.pick(3) {
+        0 => Kind::Block,
+        1 => Kind::Exception,
+        _ => Kind::Important,
+    };
+    let mut groups = vec![];
+    for _ in 0..ngroups {
+        let kind = if big && t.chance(2, 3) {
+            big_kind.clone()
+        } else {
+            match t.pick(3) {
+                0 => Kind::Block,
+                1 => Kind::Exception,
+                _ => Kind::Important,
+            }
+        };
+        let size = if big { [2usize, 63, 64, 65, 65, 66, 129][t.pick(7)] } else { 1 + t.pick(3) };
+        let toks = if big { big_toks } else { (t.pick(ntok) as u8, t.pick(ntok) as u8) };
+        groups.push(Group { kind, tag: t.choose(&POOL[..3]).to_string(), size, toks, regexy: if big { false } else { t.chance(1, 2) } });
+    }
+    let m = 1 + t.pick(8);
+    let mut ops = vec![];
+    for _ in 0..m {
+        ops.push(match t.pick(7) {
+            0 | 1 => Op::Use(tagset(t)),
+            2 | 3 => Op::Enable(tagset(t)),
+            4 | 5 => Op::Disable(tagset(t)),
+            _ => Op::Reload(tagset(t)),
         });
     }
-    Ok(())
+    SharedCase { groups, ops, optimize: t.chance(3, 4) }
 }
 
 fn tagset(t: &mut Tape) -> Vec<String> {
@@ -222,12 +388,17 @@ pub fn decode(t: &mut Tape) -> TagCase {
 }
 
 pub fn check(ctx: &mut Ctx) {
-    ctx.rule = "1-6 tagged rules, each of kind blocking / exception (with an untagged blocker behind it) / important (with an untagged exception it must beat) / csp, 4 pattern shapes, tags from a pool of 5, optimisation on/off; history of 1-8 use/enable/disable (duplicates, unknown tags, empty sets) and reload ops (bytes serialized by a sibling engine holding a different enabled set). After every op each rule's private probe request and tag_exists over the pool (+ \"\" and an unknown tag) are compared with a set model. Non-trivial = at least two set-changing ops and a rule whose activity flips.".into();
+    ctx.rule = "1-6 tagged rules, each of kind blocking / exception (with an untagged blocker behind it) / important (with an untagged exception it must beat) / csp, 4 pattern shapes, tags from a pool of 5, optimisation on/off; history of 1-8 use/enable/disable (duplicates, unknown tags, empty sets) and reload ops (bytes serialized by a sibling engine holding a different enabled set). After every op each rule's private probe request and tag_exists over the pool (+ \"\" and an unknown tag) are compared with a set model. shared: 2-7 groups of tagged blocking / exception / important rules whose patterns share tokens from a pool of 2-4 (plain or '*' patterns, the per-rule suffix is never a token), so bucket membership and optimiser fusion depend on the enabled set; 1 in 30 cases uses 2-3 groups of 2/63/64/65/66/129 rules in one bucket; same histories and set model. Non-trivial = at least two set-changing ops and a rule whose activity flips.".into();
     ctx.assumptions = vec!["tag+redirect, tag+removeparam and tag+generichide are documented as unsupported and are not generated".into()];
     let n = ctx.tier.pick(120_000, 2_000_000);
     drive(ctx, "history", n, 200, &decode, &check_case);
+    let n = ctx.tier.pick(60_000, 1_000_000);
+    drive(ctx, "shared", n, 200, &decode_shared, &check_shared);
 }
 
 pub fn replay(ctx: &mut Ctx, v: &Value) {
+    if v.get("case").map_or(false, |c| c.get("groups").is_some()) {
+        return replay_file::<SharedCase>(ctx, v, &check_shared);
+    }
     replay_file::<TagCase>(ctx, v, &check_case);
 }
